@@ -26,7 +26,8 @@ ALT = REPO != "/repo"          # development aid: run the same check against a s
 if ALT:
     # the alternative repository gets its own copy of the Lean project (Generated tables, build
     # products), so a run against a modified tree never touches what the registered checks use
-    _alt_lean = os.path.join(WORK, "alt-lean")
+    ALT_TAG = os.environ.get("VERIF_ALT_TAG", "")
+    _alt_lean = os.path.join(WORK, "alt-lean" + ("-" + ALT_TAG if ALT_TAG else ""))
     os.makedirs(_alt_lean, exist_ok=True)
     subprocess.run(["rsync", "-a", "--delete", "--exclude", "TeraModel/Generated", LEAN + "/", _alt_lean + "/"], check=True)
     LEAN = _alt_lean
@@ -210,9 +211,9 @@ def build_harness(pid, cfg, result):
     if not binname:
         return None
     global HARNESS
-    if ALT and not HARNESS.endswith("alt-harness"):
+    if ALT and "alt-harness" not in os.path.basename(HARNESS):
         # same sources, path dependencies pointed at the scratch repository, own target dir
-        alt = os.path.join(WORK, "alt-harness")
+        alt = os.path.join(WORK, "alt-harness" + ("-" + os.environ.get("VERIF_ALT_TAG", "") if os.environ.get("VERIF_ALT_TAG") else ""))
         os.makedirs(alt, exist_ok=True)
         run(["rsync", "-a", "--delete", "--exclude", "target", "--exclude", "Cargo.lock*", HARNESS + "/", alt + "/"])
         ct = open(os.path.join(alt, "Cargo.toml")).read().replace('"/repo/', '"' + REPO + "/")
@@ -262,7 +263,9 @@ def merge_reports(a, b, tag):
 
 def run_harness(pid, cfg, exe, tier, seed, result, extra_args=(), tag=""):
     os.makedirs(WORK, exist_ok=True)
-    out_file = os.path.join(WORK, f"{pid}.{tag + '.' if tag else ''}{tier}.result.json")
+    out_dir = os.path.join(WORK, "alt-out-" + (os.environ.get("VERIF_ALT_TAG") or "0")) if ALT else WORK
+    os.makedirs(out_dir, exist_ok=True)
+    out_file = os.path.join(out_dir, f"{pid}.{tag + '.' if tag else ''}{tier}.result.json")
     if os.path.exists(out_file):
         os.remove(out_file)
     env = {"VERIF_TIER": tier, "VERIF_SEED": str(seed), "VERIF_DIR": VERIF, "VERIF_LEAN_DIR": LEAN}
@@ -443,7 +446,7 @@ def main():
         "wall_s": round(time.time() - t0, 2),
         "violations": len(violations),
     }
-    ev_dir = os.path.join(WORK, "alt-evidence") if ALT else os.path.join(VERIF, "evidence")
+    ev_dir = os.path.join(WORK, "alt-evidence" + ("-" + os.environ.get("VERIF_ALT_TAG", "") if os.environ.get("VERIF_ALT_TAG") else "")) if ALT else os.path.join(VERIF, "evidence")
     os.makedirs(ev_dir, exist_ok=True)
     json.dump(evidence, open(os.path.join(ev_dir, f"{pid}.json"), "w"), indent=1, default=str)
 
